@@ -20,30 +20,14 @@ CONSTANTS
   AllowClose = TRUE
   AllowDo = TRUE
   AllowIndicate = TRUE
-  WObjs = {w1, w2}
-  PoolOnError = FALSE
+  WObjs = {w1}
+  PoolOnError = TRUE
   IdleCollects = 0
   RtoChanges = 0
   DeadlineTicks = FALSE
   OneAtATime = FALSE
   SafePool = TRUE
-  Strict = TRUE
+  Strict = FALSE
 VIEW View
-INVARIANT TypeOK
-INVARIANT AtMostOnce
-INVARIANT WritesBounded
-INVARIANT ExactlyOnceAfterClose
-INVARIANT RoutedByID
-INVARIANT ConnOwnership
-INVARIANT GoroutinesGone
-INVARIANT OnSchedule
-INVARIANT StartErrNoCall
-INVARIANT DoNotStuck
-INVARIANT NoPanic
-INVARIANT IndicationsAreNotTransactions
-PROPERTY DoWaits
-PROPERTY QuietAfterEnd
-PROPERTY SilentAfterClose
-PROPERTY ClosedStartsRefused
-PROPERTY RtoSnapshot
 CHECK_DEADLOCK FALSE
+INVARIANT NoPanic
